@@ -129,6 +129,22 @@ func (pr *prover) lin(e ast.Expr) (lexpr, bool) {
 				return lexpr{T: map[string]int{pr.term(e): 1}}, true
 			}
 		}
+	case *ast.IndexExpr:
+		// a[k] with a an array held by value in a plain variable and k a constant: a value like any other
+		// variable (an array has no aliases unless its address is taken, which kills the term by its name)
+		if id, ok := unparen(x.X).(*ast.Ident); ok {
+			if at := pr.info.Types[id].Type; at != nil {
+				if _, isArr := at.Underlying().(*types.Array); isArr {
+					if tv := pr.info.Types[x.Index]; tv.Value != nil {
+						if t := pr.info.Types[e].Type; t != nil {
+							if b, ok := t.Underlying().(*types.Basic); ok && b.Info()&types.IsInteger != 0 {
+								return lexpr{T: map[string]int{pr.term(e): 1}}, true
+							}
+						}
+					}
+				}
+			}
+		}
 	}
 	return lexpr{}, false
 }
